@@ -355,7 +355,13 @@ pub fn nucleo_script(rng: &mut SplitMix, focus: &str, thorough: bool) -> NucleoS
             9 => UiOp::CheckInjectors,
             10 => UiOp::JoinWriters,
             11 => UiOp::Quiesce,
-            12 => UiOp::Burn { k: 1 + rng.below(30) as u32 },
+            12 => {
+                if rng.below(4) == 0 {
+                    UiOp::UpdateConfigSame
+                } else {
+                    UiOp::Burn { k: 1 + rng.below(30) as u32 }
+                }
+            }
             _ => UiOp::DropNucleo,
         };
         ui.push(op);
